@@ -6,6 +6,7 @@ import (
 	"math/rand"
 	"os"
 	"path/filepath"
+	"runtime"
 	"sort"
 	"strings"
 	"sync"
@@ -293,6 +294,11 @@ func runConcWorkload(c core.Case, res *core.Result) *concOutcome {
 	}
 	G := int(c.Int("clients", 6))
 	N := int(c.Int("txns", 40))
+	if procs := int(c.Int("procs", 0)); procs > 0 {
+		// few processors, many goroutines: a goroutine woken from a wait runs long after its wake-up,
+		// which stretches every window between two steps that are not under one lock
+		defer runtime.GOMAXPROCS(runtime.GOMAXPROCS(procs))
+	}
 	eng.H.SetProfile(c.Str("delay", "jitter"), c.Seed)
 	defer eng.H.SetProfile("none", 0)
 	var imu sync.Mutex
@@ -521,6 +527,11 @@ func genTxn(prop string, tier string, seed int64, scriptedQ, scriptedT, concQ, c
 		c := core.Case{ID: fmt.Sprintf("con%05d", i), Kind: "conc", Seed: r.Int63(),
 			S: map[string]string{"prop": prop, "delay": gen.DelayProfiles[r.Intn(len(gen.DelayProfiles))]},
 			N: map[string]int64{"clients": int64(4 + r.Intn(9)), "txns": int64(30 + r.Intn(31))}}
+		if i%3 == 1 {
+			c.N["procs"] = int64(1 + i%2)
+			c.N["clients"] = int64(12 + r.Intn(13))
+			c.N["txns"] = int64(15 + r.Intn(16))
+		}
 		if i < 1 {
 			c.N["sample"] = 1
 		}
@@ -530,7 +541,7 @@ func genTxn(prop string, tier string, seed int64, scriptedQ, scriptedT, concQ, c
 }
 
 const txnRuleScripted = "scripted cases: one goroutine owns up to 6 open transactions on 3-6 hostile keys and executes 100-300 seeded steps (Begin ro/rw, Get, Set, Delete, Commit, Discard, View/Update closures incl. failing ones, misuse calls, drain, reopen) against a database with tiny thresholds; an MVCC store + the SSI conflict rule predict every Get and every Commit result exactly; 'oldreader' scripts keep one read-write transaction open over 30-600 steps of other commits before it writes and commits; "
-const txnRuleConc = "concurrent cases: 4-12 client goroutines x 30-60 transactions (read-modify-write, write-skew pairs, read-only audits, blind and multi-key writes, random) on 3-6 shared keys, flush queue 0-4, memtable 1-1000 B, delay profiles at the schedule points; every call recorded with one atomic logical clock; checked offline with porcupine (snapshot-read model at Begin intervals, strict-serializability model over whole lifetimes; single-key and key-pair projections first, then the full history), conflict interval rules and local rules (no reads of uncommitted/overwritten/alien values); "
+const txnRuleConc = "concurrent cases: 4-12 client goroutines x 30-60 transactions (read-modify-write, write-skew pairs, read-only audits, blind and multi-key writes, random) on 3-6 shared keys, flush queue 0-4, memtable 1-1000 B, delay profiles at the schedule points, every third history with 12-24 clients on 1-2 processors (a woken goroutine runs long after its wake-up); every call recorded with one atomic logical clock; checked offline with porcupine (snapshot-read model at Begin intervals, strict-serializability model over whole lifetimes; single-key and key-pair projections first, then the full history), conflict interval rules and local rules (no reads of uncommitted/overwritten/alien values); "
 
 func init() {
 	reg := func(prop, ntRule string, sq, st, cq, ct, old int, minQ, minT int, assumptions []string) {
